@@ -210,7 +210,9 @@ class C06(PropertyCheck):
             "/ re-add / set_title / lookups followed by serialize -> from_bytes, compared with Python's own ordered dict and with the model of "
             "C07 pushed through the model of C06 (kind txth); conforming files of ANOTHER writer (Python: shuffled pointer/label tables, junk and "
             "duplicated strings in the text section) parsed by from_bytes; the two game files re-serialized byte-exactly; "
-            "from_archive on API-built well- and ill-formed archives; A-codec sweep of every scalar value / every lossless Shift-JIS "
+            "from_archive on API-built well- and ill-formed archives; A-codec sweep on the real library - QUICK tier: 8 sub-ranges (about 13 600 of the "
+            "1 112 064 scalar values: 1-0xFFF, 0x3000-0x33FF, 0x4E00-0x4FFF, 0xD000-0xE0FF, 0xF900-0x100FF, 0x1F000-0x1F7FF, 0x2F800-0x2FA1F, "
+            "0x10FC00-0x10FFFF) and the lead bytes 00-83, 88-89, A0-E1, E8-FF; THOROUGH tier: every scalar value / every lossless Shift-JIS "
             "code in first and inner position on the real library. Non-trivial = an archive with at least one message parsed back; "
             "distinct = distinct case line.")
     assumptions = ["A-codec: encoding_rs Shift-JIS and str::encode_utf16/String::from_utf16 are lossless and NUL-free on the generated "
@@ -578,7 +580,8 @@ MANIFEST = dict(
          "(C06_utf16_codec, C06_utf16_units_are_strings). Model tied to /repo on every run: serialize image byte-exact vs the extracted model, re-parsed entries vs "
          "input and model, image examined by an independent Python reference reader, histories of API calls pushed through the real library, the "
          "C07 model composed with the C06 model, and Python's own ordered dict (kind txth), the two game files, from_archive on API-built archives, "
-         "and an A-codec sweep of every scalar value / lossless Shift-JIS code on the real library.",
+         "and an A-codec sweep on the real library (quick tier: selected blocks, about 1.2 % of the scalar values and most lead bytes; every scalar "
+         "value and every lossless Shift-JIS code only in the thorough tier).",
     note=TB + "Domain: the theorems quantify over ENCODED strings; read on Rust Strings they speak about strings s with decode(encode s) = s "
               "(lossless; checked per string by the harness). For keys, the title and legacy messages this EXCLUDES U+00A5, U+203E and U+2212, "
               "which encoding_rs' Shift-JIS encoder accepts (5C, 7E, 81 7C) but which come back as U+005C, U+007E, U+FF0D (the round trip holds for "
